@@ -1,7 +1,8 @@
 """C15 - surface copies and blends place exactly the requested block."""
 from .. import core, gen, build
 
-RULE = ("random copy_surface / blend_surface (28 modes) / blend_surface_with_alpha calls: destination and source "
+RULE = ("random copy_surface / blend_surface (28 modes) / blend_surface_with_alpha calls on destinations with and without a "
+        "transform, a clip rectangle and an open layer set (all of which must be ignored): destination and source "
         "sizes 0..6 (sometimes up to 40), src_rect inside/overlapping/outside/empty/inverted incl. far away (up to "
         "the ends of the i32 range), dst negative/inside/beyond, premultiplied random pixels; non-trivial = at least one destination pixel "
         "is written AND (src_rect.min != (0,0) or the block is cut by a source or destination edge); distinct by "
